@@ -195,10 +195,12 @@ def record {T} (N : Numerics) : List (T × Snap) → Option (Tree T)
   | [] => none
   | (abs, s) :: rest => some (recordFrom N (stepTree abs s) rest)
 
-/-- where the bucket tree is put: hierarchical layout on request — and always when the scene
-is not empty -/
-def layoutKey (withInheritedCoords sceneEmpty : Bool) : String :=
-  if withInheritedCoords || !sceneEmpty then "/bucket" else "/"
+/-- where the bucket tree is put: hierarchical layout on request, always when the scene is not
+empty, and (proposed repair `C03-flat-layout-falls-back-to-hierarchical`) also when another node of
+the result has coordinates that clash with the buckets' (`clash`: e.g. a debug record of a
+multi-wavelength photon on another wavelength grid) — the pinned code raises in that case -/
+def layoutKey (withInheritedCoords sceneEmpty : Bool) (clash : Bool := false) : String :=
+  if withInheritedCoords || !sceneEmpty || clash then "/bucket" else "/"
 
 /-! ### the pinned combination (`xr.merge`): every variable goes through float64 -/
 
